@@ -295,10 +295,19 @@ C14_TracebacksFirst == IsCase =>
 (* a permanent guard against vacuous invariants (MC_Validate_Broken.cfg)                                           *)
 Broken_EveryExtraIsDeviation == IsCase => (case.extras # {} => CExpected # "OK")
 
+(* How a typed message reaches the logger is NOT a parameter of Expected: the clause is the same for every style.      *)
+(* StylesOf tells the harness which public ways of writing it must execute for a case (all of them, same expectation): *)
+(*   log = MessageType.log(fields); write = MSG(fields).write() (default logger); write_logger = MSG(fields).write(logger);     *)
+(*   write_action = MSG(fields).write(action=a), a an action of the same logger; bind_write_action = MSG(some fields).bind(the others) *)
+(*   .write(action=a).  Other kinds have one way each (typed actions, write_traceback, log_message).                   *)
+WriteStyles == {"log", "write", "write_logger", "write_action", "bind_write_action"}
+StylesOf(k) == IF k = "message" THEN WriteStyles ELSE {"api"}
+
 (* one line per case for the harness (JSON inside a TLA+ string) *)
 EmitCase == IsCase => PrintT("CASEJ" \o ToJson([k |-> case.k, flds |-> case.flds, F |-> CF, vals |-> case.vals,
                                                 extras |-> case.extras, tb |-> case.tb, exp |-> CExpected,
-                                                chk |-> CCheck, ndev |-> Cardinality(case.devs)]))
+                                                chk |-> CCheck, ndev |-> Cardinality(case.devs),
+                                                styles |-> StylesOf(case.k)]))
 
 -----------------------------------------------------------------------------
 (* Part 2: validate_logging / capture_logging around a unittest test method                                         *)
@@ -312,7 +321,13 @@ Outcome == {"pass", "fail", "error", "skip"}
 Logs == IF RichCapture THEN {"none", "valid", "invalid", "tb", "tb_flushed", "tb_invalid"}
                        ELSE {"valid", "invalid", "tb", "tb_invalid"}
 Decorators == {"capture", "validate"}
-TestDesc == [dec : Decorators, out : Outcome, logs : Logs]
+(* swap = the test body itself calls swap_logger(a foreign logger) after logging; it swaps back only if it passes, so a   *)
+(* failing / erroring / skipped body leaves the foreign logger installed when the cleanups start. Only under             *)
+(* capture_logging (validate_logging promises nothing about the default logger).                                        *)
+SwapLogs == IF RichCapture THEN {"valid", "tb_invalid"} ELSE {"valid"}
+TestDesc == {t \in [dec : Decorators, out : Outcome, logs : Logs, swap : BOOLEAN] :
+               t.swap => (t.dec = "capture" /\ t.logs \in SwapLogs)}
+Foreign(n) == 100 + n      \* identity of the logger a body swaps in
 Runs == UNION {[1..n -> TestDesc] : n \in 1..MaxTests}
 
 HasUnflushedTb(l) == l \in {"tb", "tb_invalid"}
@@ -337,6 +352,7 @@ CapEnter ==   \* the decorated method is called: wrappers run up to the body
 CapBody ==    \* the body logs (to the default logger under capture_logging) and ends
   /\ cap.pc = "body"
   /\ cap' = [cap EXCEPT !.pc = "cleanup", !.during = cap.dl,
+                        !.dl = IF T.swap /\ T.out # "pass" THEN Foreign(cap.n) ELSE cap.dl,
                         !.events = CASE T.out = "pass" -> {}
                                      [] T.out = "fail" -> {"failure"}
                                      [] T.out = "error" -> {"error:body"}
